@@ -965,12 +965,25 @@ V("C09", "C09.R1", "c09-ptr-const-dropped", "shroud/declast.py",
             decl.append(" volatile")
 
     def __str__(self):
-        if self.const:''',
+        s = self.ptr''',
   '''        if self.volatile:
             decl.append(" volatile")
 
     def __str__(self):
-        if self.const:''', "fire", "Ptr.gen_decl_work:const")
+        s = self.ptr''', "fire", "Ptr.gen_decl_work:const")
+V("C09", "C09.R1", "c09-ptr-str-drops-volatile", "shroud/declast.py",
+  '''        if self.volatile:
+            s += " volatile"
+        return s''', '''        return s''', "fire", "Ptr.__str__:fields")
+V("C09", "C09.R1", "c09-builtin-specifier-does-not-close-type", "shroud/declast.py",
+  '''                found_type = True
+                self.next()''', '''                self.next()''', "fire", "declaration_specifier:found_type")
+V("C09", "C09.R1", "c09-octal-default-read-as-decimal", "shroud/declast.py",
+  '''            if len(value) > 1 and value[0] == "0":
+                # C++ reads a leading 0 as an octal literal.
+                value = int(value, 8)
+            else:
+                value = int(value)''', '''            value = int(value)''', "fire", "initializer:octal")
 V("C09", "C09.R1", "c09-new-parsed-field-unrendered", "shroud/declast.py",
   '''                if self.token.value == "const":
                     self.next()
@@ -995,9 +1008,18 @@ V("C09", "C09.R2", "c09-pointers-reversed", "shroud/declast.py",
                 ptr.gen_decl_work(decl, **kwargs)''', "fire", "pointer-order")
 V("C09", "C09.R3", "c09-printnode-unary-removed", "shroud/todict.py",
   '''    def visit_UnaryOp(self, node):
-        return node.op + self.visit(node.node)''',
+        operand = self.visit(node.node)''',
   '''    def xvisit_UnaryOp(self, node):
-        return node.op + self.visit(node.node)''', "fire", "PrintNode.visit_UnaryOp")
+        operand = self.visit(node.node)''', "fire", "PrintNode.visit_UnaryOp")
+V("C11", "C11.R5", "c11-unary-operand-sign-not-wrapped", "shroud/todict.py",
+  '''        if operand[:1] in ("+", "-"):
+            # "- -5" must not be printed as "--5".
+            operand = "(" + operand + ")"
+''', "", "fire", "visit_UnaryOp")
+V("C11", "C11.R5", "c11-right-operand-tested-by-class", "shroud/todict.py",
+  '''        if right[:1] in ("+", "-"):''', '''        if node.right.__class__.__name__ == "UnaryOp":''', "fire", "unary-right")
+V("C11", "C11.R5", "c11-right-operand-startswith-form", "shroud/todict.py",
+  '''        if right[:1] in ("+", "-"):''', '''        if right.startswith(("+", "-")):''', "silent", "")
 V("C09", "C09.R3", "c09-paren-flattened-in-parser", "shroud/declast.py",
   "            node = ParenExpr(self.expression())", "            node = self.expression()", "fire", "paren")
 V("C09", "C09.R4", "c09-right-assoc-minus", "shroud/declast.py",
